@@ -206,3 +206,45 @@ Print Assumptions C19_old_table_wedges.
 Print Assumptions C19_broadcast_targets.
 Print Assumptions C19_broadcast_one_per_node.
 Print Assumptions C19_holds.
+
+(** ** tie to the source text: the bodies of the four retry functions
+    (call_json_with_retry, call_message_with_retry of src/fleet.rs and of
+    src/async_fleet.rs), re-translated into Gallina by bin/rs2v on every run
+    (Gen/FleetGen.v), are all the ONE model loop [retry_loop]: same attempts
+    made, cached client, remaining script, reported result, and one sleep after
+    every retryable failure that was not the last allowed attempt
+    ([retry_sleeps]).  The closure / async block that performs one attempt is
+    not translated: it is the environment step that assumption R8 describes.
+    For [max = 0] (rejected by validate_fleet_options) the code reports neither
+    value nor error, where the model has its placeholder.  A function that could
+    not be translated is [None] and its clause is [True] (reported by rs2v). *)
+From RepeV Require Import Base.GenFleetPrelude Gen.FleetGen Proofs.FleetGenAgree.
+
+Theorem C19_source_translation : forall g,
+  In g [gen_fleet_call_json; gen_fleet_call_message; gen_afleet_call_json; gen_afleet_call_message] ->
+  match g with
+  | Some f => forall tbl max script c,
+      let o := f tbl (N.of_nat max) script c in
+      let m := retry_loop tbl max script c 0 (RErr KNotConnected) in
+      fo_made o = co_attempts m /\ fo_cache o = co_cache m /\ fo_script o = co_script m /\
+      fo_sleeps o = retry_sleeps tbl max script c /\
+      ((1 <= max)%nat -> fo_result o = rr_of (co_result m)) /\
+      (max = 0%nat -> fo_result o = RRError None)
+  | None => True
+  end.
+Proof. exact c19_source_translation_explicit. Qed.
+
+Check C19_source_translation : forall g,
+  In g [gen_fleet_call_json; gen_fleet_call_message; gen_afleet_call_json; gen_afleet_call_message] ->
+  match g with
+  | Some f => forall tbl max script c,
+      let o := f tbl (N.of_nat max) script c in
+      let m := retry_loop tbl max script c 0 (RErr KNotConnected) in
+      fo_made o = co_attempts m /\ fo_cache o = co_cache m /\ fo_script o = co_script m /\
+      fo_sleeps o = retry_sleeps tbl max script c /\
+      ((1 <= max)%nat -> fo_result o = rr_of (co_result m)) /\
+      (max = 0%nat -> fo_result o = RRError None)
+  | None => True
+  end.
+
+Print Assumptions C19_source_translation.
